@@ -244,9 +244,10 @@ CHECKS = {
         "level": "fault_enumeration",
         "tests": [
             {"pkg": "clusterx", "run": "^TestC05_Cluster$", "quick": 160, "thorough": 4200, "shards": {"quick": 5, "thorough": 14}, "shrinktime": "20s"},
+            {"pkg": "coordx", "run": "^TestC05_MetaFile$", "quick": 400, "thorough": 24000, "shards": {"quick": 4, "thorough": 16}, "shrinktime": "20s"},
         ],
-        "floors": {"election_triggered": 0.05},
-        "rule": "generated programs of 8-30 steps over a cluster of 3 or 5 real storage nodes (+0-1 spare) and the real coordinator ShardController, all in one process and connected by a harness-owned wire: client writes (put / conditional put / delete / delete-range, each with a unique marker record) and reads sent to the node the client believes to be leader (current, remembered or arbitrary), bursts of 2-4 concurrent operations, isolate / cut link / heal, graceful node restart, node stop/start (minority), 'node unavailable' notifications to the coordinator, coordinator restart from the stored metadata, holding a node's next NewTerm response, node swap to the spare, settle pauses; WAL segments of 1 KiB..64 KiB so rollovers and truncations cross segments. At the end everything is healed and restarted, a fresh coordinator elects, a final write is issued and the ensemble catches up. Every message, metadata store and client invoke/return is recorded in one ordered history. Oracle (C05) over the recorded coordinator events: every NewTerm/BecomeLeader/AddFollower carries the term of the latest successful metadata store and terms sent never go down, also across coordinator restarts; per term at most one node answers BecomeLeader successfully; every installed leader is a member of the stored ensemble, a majority of that ensemble had answered NewTerm(T) before the request was sent, and its reported head is maximal among the responders in its follower map; a node never answers NewTerm for a term below one it answered before and its reported term never decreases, also across restarts. Non-trivial: as C01.",
+        "floors": {"election_triggered": 0.03, "killed_inside_store": 0.02},
+        "rule": "generated programs of 8-30 steps over a cluster of 3 or 5 real storage nodes (+0-1 spare) and the real coordinator ShardController, all in one process and connected by a harness-owned wire: client writes (put / conditional put / delete / delete-range, each with a unique marker record) and reads sent to the node the client believes to be leader (current, remembered or arbitrary), bursts of 2-4 concurrent operations, isolate / cut link / heal, graceful node restart, node stop/start (minority), 'node unavailable' notifications to the coordinator, coordinator restart from the stored metadata, holding a node's next NewTerm response, node swap to the spare, settle pauses; WAL segments of 1 KiB..64 KiB so rollovers and truncations cross segments. At the end everything is healed and restarted, a fresh coordinator elects, a final write is issued and the ensemble catches up. Every message, metadata store and client invoke/return is recorded in one ordered history. Oracle (C05) over the recorded coordinator events: every NewTerm/BecomeLeader/AddFollower carries the term of the latest successful metadata store and terms sent never go down, also across coordinator restarts; per term at most one node answers BecomeLeader successfully; every installed leader is a member of the stored ensemble, a majority of that ensemble had answered NewTerm(T) before the request was sent, and its reported head is maximal among the responders in its follower map; a node never answers NewTerm for a term below one it answered before and its reported term never decreases, also across restarts. Non-trivial: as C01. Second generator (TestC05_MetaFile, coordinator crash points INSIDE a metadata write of the file provider): a history of cluster statuses with growing terms, 0-2 stores by earlier incarnations, 1-3 stores by a child process running the real provider under strace with SIGKILL injected just before its k-th system call on the status file (k generated; one locked OS thread so the enumeration is deterministic); a fresh provider must then refuse to start or read exactly the last acknowledged or the in-flight status (never 'no metadata', a lower term or a mix) and be able to store from the version it read. Non-trivial there: the child was killed between the start and the return of a Store.",
         "assumptions": ['coordinator crash points are restarts between steps (not inside a metadata write)'],
     },
     "C20": {
